@@ -404,7 +404,7 @@ func ruleStoredOrder(r *Run, rule string, m *sqliteModel) {
 					}
 					found = true
 					okPos := rs.Key != nil && SameObj(m.info, call.Args[3], rs.Key)
-					okObj := rs.Value != nil && SameObj(m.info, call.Args[4], rs.Value)
+					okObj := IsLoopElem(m.info, rs, call.Args[4])
 					r.Check(rule, "pos:"+c.owner+"."+c.field, call.Pos(), okPos && okObj, "%s(…, pos, obj) inside `range %s` must get the range index as pos and the range value as the object (pos=%s obj=%s)", c.callee, ExprStr(rs.X), ExprStr(call.Args[3]), ExprStr(call.Args[4]))
 					return true
 				})
